@@ -78,6 +78,7 @@ enum Action<'a> {
     Collect { stmts: &'a mut Vec<StmtSite>, exprs: &'a mut Vec<ExprSite> },
     InsertStmt { target: usize, stmt: Option<Stmt>, counter: usize },
     ReplaceExpr { target: usize, expr: Option<Expr>, counter: usize },
+    GetExpr { target: usize, out: Option<Expr>, counter: usize },
 }
 
 struct W<'a> {
@@ -90,6 +91,7 @@ impl<'a> W<'a> {
             Action::Collect { .. } => false,
             Action::InsertStmt { stmt, .. } => stmt.is_none(),
             Action::ReplaceExpr { expr, .. } => expr.is_none(),
+            Action::GetExpr { out, .. } => out.is_some(),
         }
     }
 
@@ -110,7 +112,7 @@ impl<'a> W<'a> {
                     }
                     *counter += 1;
                 }
-                Action::ReplaceExpr { .. } => {}
+                Action::ReplaceExpr { .. } | Action::GetExpr { .. } => {}
             }
             if i >= b.stmts.len() {
                 break;
@@ -243,6 +245,15 @@ impl<'a> W<'a> {
                     *counter += 1;
                 }
             }
+            Action::GetExpr { target, out, counter } => {
+                if x.ty != Ty::Void {
+                    if *counter == *target {
+                        *out = Some(x.clone());
+                        return;
+                    }
+                    *counter += 1;
+                }
+            }
             Action::InsertStmt { .. } => {}
         }
         match &mut x.kind {
@@ -251,7 +262,7 @@ impl<'a> W<'a> {
                 self.sub(a, ctx, Placement::Operand);
                 self.sub(b, ctx, Placement::Operand);
             }
-            EKind::Neg(a) | EKind::Not(a) | EKind::Field(a, _) | EKind::TupleIdx(a, _) | EKind::MaybeJust(a) => {
+            EKind::Neg(a) | EKind::Not(a) | EKind::Field(a, _) | EKind::TupleIdx(a, _) | EKind::MaybeJust(a) | EKind::Mark(a) => {
                 self.sub(a, ctx, Placement::Operand)
             }
             EKind::If(bs, d) => {
@@ -406,6 +417,16 @@ pub fn replace_expr(p: &Program, site: usize, expr: Expr) -> Program {
     let mut w = W { act: Action::ReplaceExpr { target: site, expr: Some(expr), counter: 0 } };
     w.program(&mut q);
     q
+}
+
+pub fn expr_at(p: &Program, site: usize) -> Option<Expr> {
+    let mut q = p.clone();
+    let mut w = W { act: Action::GetExpr { target: site, out: None, counter: 0 } };
+    w.program(&mut q);
+    match w.act {
+        Action::GetExpr { out, .. } => out,
+        _ => None,
+    }
 }
 
 /// is the global function `g` referenced from another global (i.e. not an unused function)?
